@@ -51,7 +51,7 @@ func init() {
 	})
 }
 
-var c17Hashes = []string{"sm3", "sha256", "sha512", "sha1"}
+var c17Hashes = []string{"sm3", "sha256", "sha512", "sha1", "sha224", "sha384", "sha512/224", "sha512/256"}
 var c17Ciphers = []string{"sm4", "aes128", "aes256", "aes192"}
 
 // sm3mHash adapts the model SM3 to hash.Hash (buffers everything).
@@ -70,13 +70,16 @@ func genC17(r *sim.Rand, tier string) *sim.Program {
 	p.SetC("mech", mech)
 	p.SetC("gm", gm)
 	alg := r.Weighted(4, 2, 1, 1)
+	if mech != 2 && r.Chance(1, 5) {
+		alg = r.Range(4, 7) // the rest of the SHA-2 family (SP 800-90A table 2 keys seedlen on the OUTPUT length)
+	}
 	if gm == 1 && r.Chance(3, 4) {
 		alg = 0
 	}
 	p.SetC("alg", alg)
 	level := 0x99
-	if tier == "thorough" && r.Chance(1, 25) {
-		level = 2
+	if (tier == "thorough" && r.Chance(1, 25)) || r.Chance(1, 120) {
+		level = 2 // interval 2^10: histories of more than a thousand generate calls
 	} else if r.Chance(1, 40) {
 		level = 1
 	}
@@ -267,7 +270,10 @@ func execC17(t *testing.T, p *sim.Program, c *sim.Ctx) {
 func execC17Bubble(t *testing.T, p *sim.Program, c *sim.Ctx) {
 	mech := ((p.C("mech") % 3) + 3) % 3
 	gm := p.C("gm")&1 == 1
-	alg := ((p.C("alg") % 4) + 4) % 4
+	alg := ((p.C("alg") % 8) + 8) % 8
+	if mech == 2 {
+		alg %= 4
+	}
 	level := p.C("level")
 	if level != 1 && level != 2 {
 		level = 0x99
@@ -301,6 +307,14 @@ func execC17Bubble(t *testing.T, p *sim.Program, c *sim.Ctx) {
 			libHash, modHash = sha256.New, sha256.New
 		case "sha512":
 			libHash, modHash = sha512.New, sha512.New
+		case "sha224":
+			libHash, modHash = sha256.New224, sha256.New224
+		case "sha384":
+			libHash, modHash = sha512.New384, sha512.New384
+		case "sha512/224":
+			libHash, modHash = sha512.New512_224, sha512.New512_224
+		case "sha512/256":
+			libHash, modHash = sha512.New512_256, sha512.New512_256
 		default:
 			libHash, modHash = sha1.New, sha1.New
 		}
